@@ -150,7 +150,7 @@ fn pick_action(w: &W16, r: &mut Rng) -> Action {
     let none: Vec<Addr> = vec![];
     let mk = |name: &str, key: &'static str, target: &Addr, msg: Binary, authorised: Vec<Addr>| Action { name: name.to_string(), key, target: target.clone(), msg, funds: vec![], authorised, open_door: false, transfer: None, commit_ok: false };
     let n = new_owner_cand(w, r);
-    let which = r.below(47);
+    let which = r.below(54);
     match which {
         // ---------------- pool factory
         0 => {
@@ -419,6 +419,36 @@ fn pick_action(w: &W16, r: &mut Rng) -> Action {
             }
             a
         }
+        // ---------------- forged cw20 hooks: Receive must come from the designated token contract
+        47 => mk(
+            "pair.Receive.WithdrawLiquidity(forged)",
+            "pair",
+            &pair.addr,
+            bin(&pm::ExecuteMsg::Receive(cw20::Cw20ReceiveMsg { sender: w.inc.users[3].to_string(), amount: Uint128::new(1_000_000), msg: bin(&pm::Cw20HookMsg::WithdrawLiquidity {}) })),
+            vec![pair.lp.clone()],
+        ),
+        48 => {
+            let toks: Vec<Addr> = pair.assets.iter().filter_map(|a| if let AssetRef::Cw20(t) = a { Some(t.clone()) } else { None }).collect();
+            mk("pair.Receive.Swap(forged)", "pair", &pair.addr, bin(&pm::ExecuteMsg::Receive(cw20::Cw20ReceiveMsg { sender: w.inc.users[3].to_string(), amount: Uint128::new(1_000_000), msg: bin(&pm::Cw20HookMsg::Swap { belief_price: None, max_spread: None, to: None }) })), toks)
+        }
+        49 => mk(
+            "trio.Receive.WithdrawLiquidity(forged)",
+            "trio",
+            &w.trio.addr,
+            bin(&tm::ExecuteMsg::Receive(cw20::Cw20ReceiveMsg { sender: w.inc.users[3].to_string(), amount: Uint128::new(1_000_000), msg: bin(&tm::Cw20HookMsg::WithdrawLiquidity {}) })),
+            vec![w.trio.lp.clone()],
+        ),
+        50 | 51 => {
+            let v = r.idx(2);
+            mk(
+                "vault.Receive.Withdraw(forged)",
+                if v == 0 { "vault0" } else { "vault1" },
+                &w.vaults[v].addr,
+                Binary::from(serde_json::to_vec(&json!({"receive": {"sender": w.inc.users[3].to_string(), "amount": "1000", "msg": bin(&vm::Cw20HookMsg::Withdraw {}).to_base64()}})).unwrap()),
+                vec![w.vaults[v].lp.clone()],
+            )
+        }
+        52 => mk("lp_token.UpdateMinter", "pair", &pair.lp, bin(&cw20::Cw20ExecuteMsg::UpdateMinter { new_minter: Some(w.inc.users[3].to_string()) }), vec![pair.addr.clone()]),
         // ---------------- LP token (terraswap_token): only the pool may mint
         _ => mk("lp_token.Mint", "pair", &pair.lp, bin(&cw20::Cw20ExecuteMsg::Mint { recipient: w.inc.users[3].to_string(), amount: Uint128::new(1_000_000) }), vec![pair.addr.clone()]),
     }
@@ -634,7 +664,8 @@ pub fn run(ctx: &Ctx) -> (CheckMeta, Acc) {
         "vault_factory.CreateVault", "vault_factory.MigrateVaults", "vault_factory.RemoveVault", "vault_factory.UpdateVaultConfig", "vault_factory.UpdateConfig", "vault.UpdateConfig", "vault.Callback.AfterTrade",
         "vault_router.UpdateConfig", "vault_router.NextLoan", "vault_router.CompleteLoan", "fee_collector.UpdateConfig", "fee_collector.ForwardFees", "fee_distributor.UpdateConfig", "whale_lair.UpdateConfig",
         "incentive_factory.CreateIncentive", "incentive_factory.UpdateConfig", "incentive_factory.MigrateIncentives", "incentive.CloseFlow", "frontend_helper.UpdateConfig",
-        "epoch_manager.AddHook", "epoch_manager.RemoveHook", "epoch_manager.UpdateConfig", "lp_token.Mint",
+        "epoch_manager.AddHook", "epoch_manager.RemoveHook", "epoch_manager.UpdateConfig", "lp_token.Mint", "lp_token.UpdateMinter",
+        "pair.Receive.WithdrawLiquidity(forged)", "pair.Receive.Swap(forged)", "trio.Receive.WithdrawLiquidity(forged)", "vault.Receive.Withdraw(forged)",
     ] {
         obligations.push(format!("rejected-for-unauthorised.{a}"));
     }
@@ -650,7 +681,7 @@ pub fn run(ctx: &Ctx) -> (CheckMeta, Acc) {
     }
     let meta = CheckMeta {
         level: "exploration",
-        rule: "one world with all 15 contracts (pool factory, pair, trio, router, LP token, vault factory, two vaults, vault router, fee collector, fee distributor, whale lair, incentive factory, incentive, frontend helper, epoch manager). Each step draws one privileged message (39 contract x variant entries, 2-5 payload shapes each: owner / fees / toggles / addresses / code ids / empty) and sends it from the same snapshot as every role: owner of record, every previous owner, deployer, user, attacker, a relay contract driven by the attacker, the target itself, the three factories and six sibling system contracts (exact contract senders). An ownership model, updated only by committed transfers (UpdateConfig{owner}, factory-mediated child transfers, wasm admin moves), names the authorised senders (children: their current owner, self-callbacks: the contract, ForwardFees: the distributor, NextLoan: the registered source vault, CloseFlow: creator or factory owner, Mint: the pool). A1: every other sender is rejected and the chain state is byte-identical; a rejection counts as decided when it is an authorisation error or the authorised sender was accepted in the same state. A2: an authorised sender (notably a new owner after a transfer) is never rejected with an authorisation error. distinct = (message shape, role, authorised, outcome).".to_string(),
+        rule: "one world with all 15 contracts (pool factory, pair, trio, router, LP token, vault factory, two vaults, vault router, fee collector, fee distributor, whale lair, incentive factory, incentive, frontend helper, epoch manager). Each step draws one privileged message (44 contract x variant entries, 2-5 payload shapes each: owner / fees / toggles / addresses / code ids / empty) and sends it from the same snapshot as every role: owner of record, every previous owner, deployer, user, attacker, a relay contract driven by the attacker, the target itself, the three factories and six sibling system contracts (exact contract senders). An ownership model, updated only by committed transfers (UpdateConfig{owner}, factory-mediated child transfers, wasm admin moves), names the authorised senders (children: their current owner, self-callbacks: the contract, ForwardFees: the distributor, NextLoan: the registered source vault, CloseFlow: creator or factory owner, Mint: the pool). A1: every other sender is rejected and the chain state is byte-identical; a rejection counts as decided when it is an authorisation error or the authorised sender was accepted in the same state. A2: an authorised sender (notably a new owner after a transfer) is never rejected with an authorisation error. distinct = (message shape, role, authorised, outcome).".to_string(),
         assumptions: vec!["the 'contract itself' and sibling roles are produced by cw-multi-test's ability to execute as any address".into(), "cells where the authorised sender fails for the same non-authorisation reason are counted as undecided, not as held".into()],
         obligations,
     };
